@@ -1018,7 +1018,7 @@ func (x *fnv) execFor(s *State, st *ast.ForStmt, label string) (out flows) {
 			x.oblige(end, fmt.Sprintf("dec.%d", ord), "", c.And(c.Ge(v0, c.Int(0)), c.Lt(v1, v0)), st.Pos(), lp.lc.Decreases)
 		}
 	}
-	out.next = x.h.Merge(exit)
+	out.setNexts(x, exit)
 	return out
 }
 
@@ -1125,7 +1125,7 @@ func (x *fnv) execRange(s *State, st *ast.RangeStmt, label string) (out flows) {
 			x.checkInvariants(end, lp, "step", st.Body.Rbrace)
 			x.loopFrame(headSnap, end, lp, regions, st.Body.Rbrace)
 		}
-		out.next = x.h.Merge(exit)
+		out.setNexts(x, exit)
 		return out
 	case "map":
 		return x.execRangeMap(s, st, label, lp, coll, xt, w, assignKV)
@@ -1247,7 +1247,7 @@ func (x *fnv) execRangeMap(s *State, st *ast.RangeStmt, label string, lp *loopCt
 	}
 	// after the loop role variables refer to the exit state
 	lp.seen = seenH
-	out.next = x.h.Merge(exit)
+	out.setNexts(x, exit)
 	return out
 }
 
@@ -1319,4 +1319,18 @@ func (x *fnv) execSelect(s *State, st *ast.SelectStmt) (out flows) {
 	}
 	out.next = x.h.Merge(ends)
 	return out
+}
+
+// setNexts records the normal continuations of a statement both merged and as separate paths.
+func (f *flows) setNexts(x *fnv, states []*State) {
+	var live []*State
+	for _, s := range states {
+		if s != nil {
+			live = append(live, s)
+		}
+	}
+	f.next = x.h.Merge(live)
+	if len(live) > 1 {
+		f.nexts = live
+	}
 }
